@@ -67,7 +67,17 @@ func (pt *ParsedTable) ToMarkdown() string {
 		sb.WriteString("|")
 		colIdx := 0
 		for _, cell := range row.Cells {
+			span := cell.ColSpan
+			if span < 1 {
+				span = 1
+			}
 			if cell.IsMergedContinuation {
+				// Covered by a merged cell: Markdown has no spans, so keep the
+				// columns it occupies empty to leave the following cells in place
+				for k := 0; k < span; k++ {
+					sb.WriteString(" |")
+				}
+				colIdx += span
 				continue
 			}
 			// Replace newlines and pipes within cells
@@ -78,9 +88,9 @@ func (pt *ParsedTable) ToMarkdown() string {
 			sb.WriteString(text)
 			sb.WriteString(" |")
 
-			span := cell.ColSpan
-			if span < 1 {
-				span = 1
+			// A cell spanning several columns is followed by empty cells for the rest
+			for k := 1; k < span; k++ {
+				sb.WriteString(" |")
 			}
 			colIdx += span
 		}
